@@ -1239,8 +1239,8 @@ impl<'a> GeneratorState<'a> {
             _ => self.asm(if load { LDA } else { STA }, expr, pos, false)?,
         };
         self.protected = false;
-        if load {
-            // The load modifies the N and Z flags
+        if load || matches!(expr, ExprType::X | ExprType::Y) {
+            // The load modifies the N and Z flags, and so does a transfer to X or Y
             self.flags = FlagsState::Unknown;
         }
         Ok(())
